@@ -358,17 +358,22 @@ class DemoStorage(ConflictResolvingStorage):
                 "Garbage collection isn't supported"
                 " when there is a base storage.")
 
-        try:
-            self.changes.pack(t, referencesf, gc=False)
-        except TypeError as v:
-            if 'gc' in str(v):
-                pass  # The gc arg isn't supported. Don't pack
-            raise
+        # Remember the pack time first: a reader older than it that loads
+        # while the changes are being packed must not be handed the base's
+        # revision where the pack has just removed the one it should see.
         packed_to = ZODB.TimeStamp.TimeStamp(
             *time.gmtime(t)[:5] + (t % 60,)).raw()
         with self._lock:
-            if packed_to > self._packed_to:
+            previous = self._packed_to
+            if packed_to > previous:
                 self._packed_to = packed_to
+        try:
+            self.changes.pack(t, referencesf, gc=False)
+        except BaseException:
+            # (Also: the gc arg isn't supported.)  Nothing was packed.
+            with self._lock:
+                self._packed_to = previous
+            raise
 
     def pop(self):
         """Close the changes database and return the base.
